@@ -324,6 +324,7 @@ Section Copies.
   Theorem uplink_prog_prew f rx n now : fcnt f = c -> prew (uplink_prog E D f rx n now).
   Proof.
     intros Hf. unfold uplink_prog. apply W_row; [|now constructor]. intros dev Hstrict.
+    destruct (negb (mic_ok E f (rx_raw rx) dev)); [now constructor|].
     destruct (stale dev f) eqn:Est; [now constructor|].
     assert (Hle : (d_fup dev <=? fcnt f) = true).
     { unfold stale in Est. rewrite Hstrict in Est. cbn in Est. apply N.ltb_ge in Est. now apply N.leb_le. }
@@ -547,6 +548,7 @@ Section Data.
   Proof.
     intros Hf. unfold uplink_prog. apply PH_op; [left; reflexivity|]. intros r _.
     destruct r as [| [dev|] | | | |]; try (now constructor).
+    destruct (negb (mic_ok E f (rx_raw rx) dev)); [now constructor|].
     destruct (stale dev f); [now constructor|].
     assert (Body : forall dev1, ph Pre
       (Do (SCreateUpstream (mk_umsg dev1 rx (frm (frame_crypt E (d_nwkskey dev1) (d_appskey dev1) f)))) (fun r0 =>
